@@ -22,13 +22,12 @@ LEVEL_TEXT = ("Every compiled penalty's optimality score is executed on generate
               "boundary of the penalty and compared (1e-9 relative, inf must equal inf) with an independent model of the "
               "distance to the regular subdifferential; fixed points of the prox-gradient map are constructed from the "
               "reference prox and must score zero; zero scores of convex penalties must be fixed points.")
-LEVEL_NOTE = ("trusted: vlib/refmath.py subdifferentials and proxes; box-infeasible points are not judged (the statement "
-              "only fixes the value at positivity violations); float64")
+LEVEL_NOTE = ("trusted: vlib/refmath.py subdifferentials and proxes; float64")
 RULE = ("cases = (penalty, params, w, grad, working set, clause); w coordinates drawn from kinks {0, +-alpha, +-alpha*gamma, "
         "box bounds} and random values, grad from {0, interval ends, random}; non-trivial = w has a non-zero entry or "
         "grad != 0; distinct = digest(penalty, clause, params, w, grad)")
 SLACK = {"rel": 1e-9, "zero_score": 1e-12, "fixed_point_residual": 1e-7}
-ASSUMPTIONS = ["reference subdifferential model in vlib/refmath.py", "only feasible w for IndicatorBox"]
+ASSUMPTIONS = ["reference subdifferential model in vlib/refmath.py"]
 FLOOR = {"quick": 3000, "thorough": 40000}
 N_CFG = {"quick": 10, "thorough": 140}
 
@@ -136,6 +135,9 @@ def _sep(emit, name, rng, base, first):
         if name == "IndicatorBox":
             w = np.clip(np.abs(w), 0, alpha)
             w[onk] = rng.choice([0.0, alpha], size=int(onk.sum()))
+            if k % 3 == 0:
+                feasible = False          # outside the box the subdifferential is empty: score must be +inf
+                w[0] = alpha * 1.5 if k % 2 else -0.1 * alpha
         if name == "PositiveConstraint" or positive:
             if k % 3 == 0:
                 feasible = False          # keep some negative entries: score must be +inf there
